@@ -41,7 +41,12 @@ def main():
     mod = importlib.import_module("vmon.props." + payload["prop"].lower())
     for case in payload["cases"]:
         out = run_one(mod, case)
-        sys.stdout.write("RESULT " + json.dumps(out, default=jdefault) + "\n")
+        try:
+            line = json.dumps(out, default=jdefault)
+        except Exception:
+            line = json.dumps({"verdict": "harness_error", "tb": "result not serialisable: " + traceback.format_exc()[-1500:],
+                               "_idx": case.get("_idx", 0)})
+        sys.stdout.write("RESULT " + line + "\n")
         sys.stdout.flush()
 
 
